@@ -90,6 +90,16 @@ def powNatS (r : Nat) (x : List K) : List K :=
   | 2 => squareS x
   | r+3 => (List.range (r+2)).foldl (fun y _ => mulS x y) x
 
+/-- algorithms.py `_pow_real`, `type(r) == int and r > 64` (also Python ints beyond 64 bits): square and multiply,
+`y = 1; base = x; while e > 0: if e & 1: y = base*y; e >>= 1; if e > 0: base = base*base` (the fuel bounds the loop) -/
+def powBinLoop : Nat → Nat → List K → List K → List K
+  | 0, _, _, acc => acc
+  | fuel+1, e, base, acc =>
+    if e = 0 then acc else
+      let acc' := if e % 2 = 1 then mulS base acc else acc
+      if e / 2 = 0 then acc' else powBinLoop fuel (e / 2) (mulS base base) acc'
+def powBinS (r : Nat) (x : List K) : List K := powBinLoop (r + 1) r x (constS 1 x.length)
+
 /-- algorithms.py `_pow_real`, branch for an ndarray of non-negative integer exponents, seen at one entry of
 the array: `y = 1; for n in 1..m: y = where(r >= n, x*y, y)`, where `r` is the entry's exponent and `m` the
 largest exponent of the array (so `m ≥ r`). -/
